@@ -627,7 +627,7 @@ theorem igReady_conf (cfg : Cfg) (hl : cfg.lateJoin = false) : Conf (igReady cfg
         simp only [Prod.mk.injEq, and_true]
         revert hdev
         generalize ((Engine.cohort s a).all fun x => g.arrived.contains x) = c
-        generalize lateReady s a g.arrived work = l
+        generalize lateAt s n a g.arrived work = l
         generalize upstreamLive p s n.id work g.arrived = u
         cases c <;> cases l <;> cases u <;> simp
 
@@ -643,7 +643,7 @@ theorem joinOf_admissible (cfg : Cfg) : (joinOf cfg).Admissible := by
     | some a =>
       simp only
       generalize ((Engine.cohort s a).all fun x => g.arrived.contains x) = c
-      generalize lateReady s a g.arrived work = l
+      generalize lateAt s n a g.arrived work = l
       generalize earlyAt p s n g work = e
       cases c <;> cases l <;> cases e <;> simp
 
@@ -655,7 +655,7 @@ theorem late_admissible : Join.late.Admissible := by
   | none => rfl
   | some a =>
     simp only
-    generalize lateReady s a g.arrived work = l
+    generalize lateAt s n a g.arrived work = l
     generalize earlyAt p s n g work = e
     cases l <;> cases e <;> simp
 
